@@ -228,6 +228,9 @@ var mutants = []Mutant{
 	{"C09", "date-lost-to-strip", "internal/responsestorerer.go", [][2]string{{"\tFixDateHeader(resp.Header, respTime)\n", ""}}, "C09.17", "D84"},
 	{"C16", "late-304-merged", "roundtripper.go", [][2]string{{"if resp.StatusCode == http.StatusNotModified && !sentValidatorsOf(req, stored.Data.Header) {", "if false {"}}, "C16.15", "D85"},
 	{"C08", "late-304-compares-nothing", "helpers.go", [][2]string{{"\treturn req.Header.Get(\"If-None-Match\") == storedHdr.Get(\"ETag\") &&\n\t\treq.Header.Get(\"If-Modified-Since\") == storedHdr.Get(\"Last-Modified\")", "\treturn req != nil && storedHdr != nil"}}, "C08.13", "D85: the comparison replaced by a nil test"},
+	{"C10", "dropped-304-body-unguarded", "roundtripper.go", [][2]string{{"\t\t\tif resp.Body != nil { // a hand-written upstream may leave it nil\n\t\t\t\t_ = resp.Body.Close()\n\t\t\t}\n", "\t\t\t_ = resp.Body.Close()\n"}}, "C10.24", "D87"},
+	{"C14", "listing-by-path-name", "store/fscache/fscache.go", [][2]string{{"\tc.dw = dirWalkerFunc(func(dir string, fn fs.WalkDirFunc) error {\n\t\treturn fs.WalkDir(c.root.FS(), \".\", func(name string, d fs.DirEntry, err error) error {\n\t\t\treturn fn(filepath.Join(dir, filepath.FromSlash(name)), d, err)\n\t\t})\n\t})\n", "\tc.dw = dirWalkerFunc(filepath.WalkDir)\n"}}, "C14.21", "D88"},
+	{"C19", "vary-name-as-sent", "internal/normalization.go", [][2]string{{"\t\t\tif !yield(storableValue(name), value) {", "\t\t\tif !yield(name, value) {"}}, "C19.15", "D89"},
 	{"C02", "directive-map-edited-in-place", "roundtripper.go", [][2]string{{"\t\tfreshnessReq = maps.Clone(ccReq)\n", "\t\tfreshnessReq, _ = ccReq, maps.Clone(ccReq)\n"}}, "C02.13", "wave 6: the parser's map is edited"},
 	{"C03", "port-default-of-fixed-scheme", "internal/urlkeyer.go", [][2]string{{"\tdefaultP := defaultPort(scheme)\n", "\tdefaultP := defaultPort(\"https\")\n"}}, "C03.12", "wave 6"},
 	{"C04", "params-buffer-shared", "internal/normalization.go", [][2]string{{"outer:\n", "\tparams := make([]string, 0, 2)\nouter:\n"}, {"\t\tparams := make([]string, 0, 2)\n", "\t\tparams = params[:0]\n"}}, "C04.16", "wave 6: scratch slice shared between list members"},
